@@ -2,12 +2,20 @@
 
 MC      MC_Dnssec17 (KeyTag vs two other formulations; Match/Cover over all 5^3 orderings x in/out of zone and
         all closed chains over 0..4; ValidAt vs plain integers and vs RFC 1982 literally; IH term/plan/evaluator;
-        base32hex; DS input), MC_KeyLife17 (all behaviours <= 5 operations, non-vacuity witnesses)
+        base32hex; DS input; RSA/EC public-key encodings and the RRSIG signed octets on hand-computed cases),
+        MC_KeyLife17 (all behaviours <= 5 operations incl. externally provided keys, non-vacuity witnesses)
 GEN     Gen_Dnssec17 modes keytag / ds / nsec3 / cover / validity and Gen_KeyLife17 -> harness `sec17 replay`
         (hash values: the spec exports the octets / the iterated-hash plan and term, the harness applies
         crypto/sha1, sha256, sha512 and compares with the real ToDS / HashName)
-TV      harness `sec17 record` (seeded random keys, names, salts, intervals, instants, key lives)
-        -> Trace_Dnssec17 (judges, and writes the hash inputs it derives) -> harness `sec17 finish`
+        Key life: every behaviour x 7 generated algorithm/size combinations (thorough: + fresh RSA 1032/4088/4096 and
+        RSASHA1-NSEC3-SHA1) and, for behaviours whose keys are all PROVIDED, x 9 committed RSA key-pair sets
+        (harness/cmd/sec17/testdata: 1024, 1032, 2048, 4088, 4096 bits; exponents 3, 65537, 16777217; written by the
+        harness' own BIND exporter from crypto/rsa keys, so the quick tier pays no key generation): import via
+        NewPrivateKey/ReadPrivateKey, re-export and compare field by field, sign, verify, other key must fail
+TV      harness `sec17 record` (seeded random keys, names, salts, intervals, instants, key lives over all combinations)
+        -> Trace_Dnssec17 (judges, and writes the hash inputs it derives; for every signature of a key life: public-key
+        encoding = RFC 3110/6605 of the standard library's numbers, key tag, and the RFC 4034 3.1.8.1 signed octets)
+        -> harness `sec17 finish` (crypto/sha*, and crypto/rsa|ecdsa|ed25519 verify the real signature over those octets)
 
 Mutants (checks/mutants/C17), stage that catches each on the quick tier:
   keytag-carry-dropped.diff     GEN keytag (keytag/value), GEN ds (ds/fields); the same keys from TV keytag / ds events
@@ -120,14 +128,16 @@ def run(ctx):
         "RSA/MD5 (algorithm 1) keys are outside the key-tag universe (excluded by the statement)",
         "validity triples: the instants denoted by inception and expiration are less than 2^31 s from t; a distance of exactly 2^31 is undefined (RFC 1982) and not judged",
         "DS digest type 5 (the library's experimental SHA-512 constant; no RFC of the statement defines it) is not judged; types 0, 3, 255 must give no DS",
-        "key life: the DNSKEY passed to NewPrivateKey/ReadPrivateKey is the one the text was exported from (documented requirement); generated keys are cached per run and algorithm except in the elliptic-curve stress loop",
+        "key life: the DNSKEY passed to NewPrivateKey/ReadPrivateKey is the one the text belongs to (documented requirement); generated keys are cached per run and algorithm except in the elliptic-curve stress loop",
+        "RSA sizes: 1024..4096 (512-bit keys are refused by the Go runtime's crypto/rsa, hence by Generate and Sign); exponents of 1, 3 and 4 octets (the library refuses longer ones, so the 3-octet length form of RFC 3110 is out of reach)",
+        "the RRSIG signed octets are specified only for the key-life RRset (A records, owner not a wildcard, no names in RDATA); the general canonical form is property C10",
         "names in recorded events are written in the library's presentation form (UnpackDomainName), fully qualified; one in eight ds/hashname events re-spells some letters as \\DDD",
     ]
     return ctx.finish(rule="vectors: keytag = flags x protocol x algorithm x every key over {00,ff} up to 5 (thorough: 8) octets + keys of 255/256/257/1024 octets; "
                       "ds = 5 owners x 5 spellings (4 case variants + all-\\DDD upper case) x 7 digest types x 4 keys; nsec3 = 5 names (5 spellings each) x salts 0/1/8/255 x iterations; "
                       "cover = 5^3 orderings x 7 zone/name pairs x owner-label case; validity = 11 instants x 2 epochs x 12^2 offsets; keylife = every behaviour "
-                      "ending in a verification x 7 algorithm/size combinations + fresh-key round trips. events: seeded random. "
-                      "distinct = distinct inputs; non-trivial = all (every one compared with a spec value)")
+                      "ending in a verification x 7 generated algorithm/size combinations (+4 thorough) and x 9 committed RSA size/exponent sets where all keys are provided, + fresh-key round trips. events: seeded random. "
+                      "evaluations = every judged case (vectors per spelling / per algorithm, recorded events, second-stage hash and signature checks); distinct = distinct inputs, all non-trivial")
 
 
 def replay(ctx, path):
